@@ -67,7 +67,8 @@ def puml_tokenizer_phase(prop, pl, tier, v, seed, ev):
     r = subprocess.run(["timeout", "3000", "java", "-Xmx8g", "-cp", tlc.JAR + ":" + tlc.CM, "tlc2.TLC", "-workers", "1", "-config", cfgname, "Puml.tla"],
                        cwd=wd, capture_output=True, text=True)
     st = tlc.parse_stats(r.stdout)
-    if r.returncode != 0 or "distinct" not in st:
+    cut = r.returncode == 124 and '"L#' in r.stdout       # time limit: the lines enumerated so far are checked, the enumeration is not complete
+    if (r.returncode != 0 and not cut) or "distinct" not in st:
         raise core.ToolError("TLC failed on Puml.tla:\n" + r.stdout[-2000:])
     recs = sorted(set(l[1:-1] for l in r.stdout.splitlines() if l.startswith('"L#')))
     open(os.path.join(wd, "recs.txt"), "w").write("\n".join(recs) + "\n")
@@ -78,7 +79,7 @@ def puml_tokenizer_phase(prop, pl, tier, v, seed, ev):
     if c.returncode != 0:
         raise core.ToolError("puml_tok.cpp does not compile:\n" + c.stderr[-2000:])
     t = subprocess.run([exe, os.path.join(wd, "recs.txt")], capture_output=True, text=True, timeout=1800)
-    ev.setdefault("aux", {})["puml_tokenizer"] = {"tlc_distinct_states": st["distinct"], "lines": len(recs), "result": t.stdout.strip().splitlines()[-1] if t.stdout.strip() else ""}
+    ev.setdefault("aux", {})["puml_tokenizer"] = {"tlc_distinct_states": st["distinct"], "lines": len(recs), "enumeration_complete": not cut, "result": t.stdout.strip().splitlines()[-1] if t.stdout.strip() else ""}
     ev["states"] += st["distinct"]; ev["transitions"] += st["generated"]
     ev["samples"].append({"puml_line": recs[len(recs) // 2]})
     if t.returncode == 1:
